@@ -159,8 +159,8 @@ def _gen_fn_spec(rng):
         elif kind == "scan":
             nm = pick(lambda s: len(s) == 1)
             c0 = pick(lambda s: s == ())
-            if nm is None or c0 is None:
-                continue
+            if nm is None or c0 is None or nm in boolvars or c0 in boolvars:
+                continue  # (a boolean carry would make the generated scan ill-typed for plain JAX as well)
             tag[0] += 1
             rev = bool(rng.random() < 0.5)
             body.append({"k": "scan", "var": var, "xs": nm, "init": c0, "tag": tag[0], "dist": "p_normal", "reverse": rev})
